@@ -803,7 +803,7 @@ func checkMain(args []string) int {
 	}
 	ev := Evidence{PropertyID: prop, Tier: tier, Seed: seed, Level: def.Level, Coverage: cov, Assumptions: def.Assumptions, WallS: time.Since(t0).Seconds(), Violations: violations}
 	eb, _ := json.MarshalIndent(ev, "", " ")
-	if mutant == "" {
+	if mutant == "" && os.Getenv("GOSYM_SEEDEVAL") == "" {
 		os.MkdirAll(filepath.Join(verifRoot(), "evidence"), 0o755)
 		os.WriteFile(filepath.Join(verifRoot(), "evidence", prop+".json"), eb, 0o644)
 	} else {
